@@ -306,6 +306,7 @@ class HTMLSerializer(object):
                     in_cdata = True
                 elif in_cdata:
                     self.serializeError("Unexpected child element of a CDATA element")
+                unquoted_value_last = False
                 for (_, attr_name), attr_value in token["data"].items():
                     # TODO: Add namespace support here
                     k = attr_name
@@ -313,6 +314,7 @@ class HTMLSerializer(object):
                     yield self.encodeStrict(' ')
 
                     yield self.encodeStrict(k)
+                    unquoted_value_last = False
                     if not self.minimize_boolean_attributes or \
                         (k not in booleanAttributes.get(name, tuple()) and
                          k not in booleanAttributes.get("", tuple())):
@@ -345,8 +347,11 @@ class HTMLSerializer(object):
                             yield self.encodeStrict(quote_char)
                         else:
                             yield self.encode(v)
+                            unquoted_value_last = True
                 if name in voidElements and self.use_trailing_solidus:
-                    if self.space_before_trailing_solidus:
+                    if self.space_before_trailing_solidus or unquoted_value_last:
+                        # (directly after an unquoted attribute value the
+                        # solidus would become part of the value)
                         yield self.encodeStrict(" /")
                     else:
                         yield self.encodeStrict("/")
